@@ -393,6 +393,11 @@ func (p *service) onPublish(msg *message.PublishMessage) error {
 	for i, s := range p.subs {
 		if s != nil {
 			fn := s.(*OnPublishFunc)
+			// A client registers one callback per SUBSCRIBE request. If several filters of
+			// that request match, the callback is still invoked once per received message.
+			if p.client && callbackSeen(p.subs[:i], fn) {
+				continue
+			}
 			// use the possibly downgraded qos
 			msg.SetQoS(p.qoss[i])
 			if err := (*fn)(msg); err != nil {
@@ -402,4 +407,14 @@ func (p *service) onPublish(msg *message.PublishMessage) error {
 	}
 
 	return nil
+}
+
+// callbackSeen reports whether fn is already among the subscribers in subs.
+func callbackSeen(subs []interface{}, fn *OnPublishFunc) bool {
+	for _, s := range subs {
+		if other, ok := s.(*OnPublishFunc); ok && other == fn {
+			return true
+		}
+	}
+	return false
 }
